@@ -165,7 +165,7 @@ theorem reload_after_save (P : Params V) (L : Layout) (hL : L.Pos) (d0 d d' : Do
     have := hb.start_le; have := pf.inv.start_eq; have := pf.inv.len_ge
     simp only at *; omega
   have hpos : d'.st.start + d'.st.startxref = w.len := by rw [hst]; simp only [commit]; omega
-  have hlen : d'.st.len = w.len + L.xrefLen + L.tailLen := by rw [hst]; rfl
+  have hlen : d'.st.len = w.len + L.xrefLen i + L.tailLen i := by rw [hst]; simp only [commit]; rw [hinfo]
   have hsecs : d'.st.secs = (prep d).st2.secs ++ [⟨w.len, [⟨0, i.rows⟩], (prep d).size, d.tr.prev, d.tr.root, (prep d).infoRef⟩] := by
     rw [hst]; rfl
   have hsec : secAt d'.st.secs w.len = some ⟨w.len, [⟨0, i.rows⟩], (prep d).size, d.tr.prev, d.tr.root, (prep d).infoRef⟩ := by
@@ -224,7 +224,7 @@ theorem reload_after_save (P : Params V) (L : Layout) (hL : L.Pos) (d0 d d' : Do
       congr 1
       exact trailer_ext _ _ rfl a.symm rfl
   have hsz : ¬ ((prep d).size > MAX_ID) := by rw [pf.size_eq]; omega
-  have hge : ¬ (d'.st.start + d'.st.startxref ≥ d'.st.len) := by rw [hpos, hlen]; have := hL.2; omega
+  have hge : ¬ (d'.st.start + d'.st.startxref ≥ d'.st.len) := by rw [hpos, hlen]; have := hL.2 i; omega
   have hsec' := hsec
   rw [← hpos] at hsec'
   unfold reload
